@@ -184,6 +184,11 @@ def isInCheck (p : Position) (side : Nat) : Bool := isInCheckBB (BBs.of p) p.boa
 -- do / undo (position.cpp:433-624) ------------------------------------------------------
 def clearBits (x mask : Nat) : Nat := x &&& (15 ^^^ mask)
 
+def MAX_PLIES_MODEL : Nat := 800
+/-- `_history[_history_counter++] = key`, after dropping the oldest half when the array is full (C10 fix) -/
+def pushHistory (h : List Nat) (k : Nat) : List Nat :=
+  if h.length ≥ MAX_PLIES_MODEL then k :: h.take (h.length - MAX_PLIES_MODEL / 2) else k :: h
+
 /-- `Position::do_move`; returns the new position and the packed MoveInfo -/
 def doMove (T : ZTable) (p0 : Position) (m : Nat) : Position × Nat :=
   let side := p0.side
@@ -204,7 +209,7 @@ def doMove (T : ZTable) (p0 : Position) (m : Nat) : Position × Nat :=
     let p := setCastlingKey T p
     let p := { p with ep := 64 }
     let k := p.hash.key
-    ({ p with history := k :: p.history }, mkMoveInfo 0 prevCastling prevEp false hm)
+    ({ p with history := pushHistory p.history k }, mkMoveInfo 0 prevCastling prevEp false hm)
   else
     let f := moveFrom m
     let t := moveTo m
@@ -237,7 +242,7 @@ def doMove (T : ZTable) (p0 : Position) (m : Nat) : Position × Nat :=
         { p with ep := e, hash := { p.hash with epK := T.ep (fileOf e) } }
       else { p with ep := 64 }
     let k := p.hash.key
-    ({ p with history := k :: p.history }, mkMoveInfo captured prevCastling prevEp isEp hm)
+    ({ p with history := pushHistory p.history k }, mkMoveInfo captured prevCastling prevEp isEp hm)
 
 /-- `Position::undo_move` -/
 def undoMove (T : ZTable) (p0 : Position) (m mi : Nat) : Position :=
